@@ -274,6 +274,11 @@ Section Proofs.
       intuition (try congruence; eauto).
   Qed.
 
+  Lemma sim_sym a b : sim a b -> sim b a.
+  Proof.
+    revert b; induction a; intros b; destruct b; simpl; try tauto; intuition (try congruence; eauto).
+  Qed.
+
   Lemma query_sim c q : sim (fst (run_query c q)) c.
   Proof. destruct q; simpl; auto using sim_refl, support_sim. Qed.
 
